@@ -19,6 +19,10 @@ RULE = (
     "are judged only when the call returns. Non-trivial and distinct = distinct (pair, options) where the call "
     "returned and at least one file or key was copied or at least one destination-only item existed."
 )
+RULE += (
+    " " + "Added later: file names on filecmp's ignore list, 'data.txt', a destination-only file named like a document backup, a second file two levels down, an exclude pattern matching signac's own files; a re-sync after one synchronised job was removed from the destination; every audited step of a job-level and a project-level sync failing once (EIO, EACCES; ENOENT on writes)."
+    " In every third case DEBUG logging is effective for the package."
+)
 ASSUMPTIONS = [
     "Conflict exceptions (FileSyncConflict, DocumentSyncConflict, SchemaSyncConflict) are legitimate outcomes and "
     "leave the post-conditions unjudged here (C14 / C15 judge them); the source must be untouched in every case.",
